@@ -621,7 +621,7 @@ func (p *Program) FindFuncs(spec *FuncSpec) []*ssa.Function {
 	var out []*ssa.Function
 	seen := map[*ssa.Function]bool{}
 	for fn := range ssautil.AllFunctions(p.SSA) {
-		if fn.Blocks == nil || fn.Synthetic != "" && !strings.HasPrefix(fn.Synthetic, "instance of") {
+		if fn.Blocks == nil || fn.Synthetic != "" && !strings.HasPrefix(fn.Synthetic, "instance of") && fn.Synthetic != "package initializer" {
 			continue
 		}
 		if fn.TypeParams() != nil && fn.TypeParams().Len() > 0 && len(fn.TypeArgs()) == 0 {
